@@ -82,6 +82,13 @@ func waitApplied(cl *simCluster, n int) bool {
 	})
 }
 
+var readdNotLoaded int
+
+type remRec struct {
+	ds, pid uuid.UUID
+	node    uint64
+}
+
 func runCatalogue(c *Ctx) {
 	c.Stats.Rule = "random catalogue logs (create, duplicate create, delete, delete absent, add/remove partition replica) on 1-3 simulated nodes; listing of every node after every entry vs the Lean model; snapshot + restore into a fresh node at every cut followed by the suffix; fresh full replay; non-trivial = log with a replica-set change before a cut, or a delete; distinct = distinct log"
 	rng := NewRng(c.Seed)
@@ -96,7 +103,11 @@ func runCatalogue(c *Ctx) {
 		var live []uuid.UUID // dataset ids believed to exist
 		ref := map[int]*refDs{}
 		var createEntries [][]byte
+		var lastRem *remRec
 		nOps := 4 + r.Intn(c.Pick(8, 16))
+		if h < 2 {
+			nOps = 10
+		}
 		applied := 0
 		propose := func(data []byte) {
 			cl.nodes[cl.ids[0]].group.Propose(ctx, data)
@@ -122,7 +133,11 @@ func runCatalogue(c *Ctx) {
 			}
 		}
 		for op := 0; op < nOps; op++ {
-			switch k := r.Intn(10); {
+			k := r.Intn(10)
+			if h < 2 && len(live) > 0 {
+				k = 9 // the first two histories are about replica-set changes
+			}
+			switch {
 			case k < 4 || len(live) == 0: // create through the API of a random node
 				via := cl.ids[r.Intn(N)]
 				dim, parts, repl := uint32(1+r.Intn(4)), uint32(1+r.Intn(3)), uint32(1+r.Intn(2))
@@ -214,6 +229,28 @@ func runCatalogue(c *Ctx) {
 				if r.Intn(2) == 0 {
 					typ = pb.DatasetPartitionNodesChangeType_DatasetPartitionNodesChangeRemoveNode
 					name = "remnode"
+					// prefer a node that does host the partition
+					if hosts := d.VerifPartitionAt(pi).NodeIds(); len(hosts) > 0 && r.Intn(3) > 0 {
+						node = hosts[r.Intn(len(hosts))]
+					}
+				}
+				// a replica that was taken away comes back to the same partition (it unloaded its raft group and
+				// wiped that group's log in between)
+				if lastRem != nil && (h < 2 || r.Intn(2) == 0) {
+					stillThere := false
+					for _, l := range live {
+						if l == lastRem.ds {
+							stillThere = true
+						}
+					}
+					if stillThere {
+						id, pid, node = lastRem.ds, lastRem.pid, lastRem.node
+						typ, name = pb.DatasetPartitionNodesChangeType_DatasetPartitionNodesChangeAddNode, "addnode"
+						c.Nontrivial("replica-removed-and-added-again")
+					}
+					lastRem = nil
+				} else if name == "remnode" {
+					lastRem = &remRec{id, pid, node}
 				}
 				chData, _ := proto.Marshal(&pb.DatasetPartitionNodesChange{Type: typ, DatasetId: id.Bytes(), PartitionId: pid.Bytes(), NodeId: node})
 				data, _ := proto.Marshal(&pb.DatasetManagerChange{Type: pb.DatasetManagerChangeType_DatasetManagerUpdatePartitionNodes, NotificationId: uuid.NewV4().Bytes(), Data: chData})
@@ -239,6 +276,21 @@ func runCatalogue(c *Ctx) {
 					}
 				}
 				c.Nontrivial("replica-set-change")
+				// a node that is (again) listed as a replica has the partition's raft group loaded
+				if name == "addnode" {
+					if dn := cl.dataset(node, id); dn != nil {
+						for k := 0; k < dn.VerifPartitionCount(); k++ {
+							if p := dn.VerifPartitionAt(k); p.Id() == pid {
+								loaded := waitFor(3*time.Second, func() bool { return p.HasRaft() })
+								c.Count(fmt.Sprintf("addnode-raft-loaded:%v", loaded))
+								if !loaded {
+									readdNotLoaded++
+									c.Violate("C18", "C18/replica-listed-but-not-loaded", fmt.Sprintf("node %d is listed as a replica of partition %d (every member lists it) but has no raft group for it 3 s after the change was applied: the replica never serves (a node that had the partition before unloaded its group and deleted the group's log; loading it again fails)", node, unum(pid)), c.History())
+								}
+							}
+						}
+					}
+				}
 			}
 			observe()
 		}
